@@ -27,6 +27,9 @@ type SpecProj struct {
 	Last   int    `json:"last"`
 	LastT  int    `json:"lastt"`
 	Commit int    `json:"commit"`
+	Pend   int    `json:"pend"` // unresolved futures of replicated operations submitted to this incarnation
+	Base   int    `json:"base"` // compaction boundary of the log
+	Snap   int    `json:"snap"` // label of the newest published snapshot
 }
 
 var roleName = map[int]string{0: "L", 1: "F", 2: "P", 3: "C", 4: "D"}
@@ -39,12 +42,15 @@ func (c *Cluster) project(n *Node) SpecProj {
 	st := n.r.Status()
 	c.mu.Lock()
 	vote := n.pvote
+	pend := n.pendingOps
+	snap := n.snapIdx
 	c.mu.Unlock()
 	if vote == "" {
 		vote = "Nil"
 	}
 	return SpecProj{Term: int(st.Term), Vote: vote, Role: roleName[int(st.State)], Last: int(n.lw.inner.LastIndex()),
-		LastT: int(n.lw.inner.LastTerm()), Commit: int(st.CommitIndex)}
+		LastT: int(n.lw.inner.LastTerm()), Commit: int(st.CommitIndex), Pend: pend,
+		Base: int(n.lw.inner.LastIndex()) - n.lw.inner.Size(), Snap: snap}
 }
 
 // lapse advances virtual time until node id neither holds a valid lease nor has heard
@@ -93,6 +99,20 @@ func (r *Runner) specStep(k int, st SpecStep) {
 		r.Do(Stim{Op: "hb", N: n})
 		ok = r.Do(Stim{Op: "deliver", Kind: "ae", From: n, To: p})
 		r.Do(Stim{Op: "dropresp", Kind: "ae", From: n, To: p})
+	case "ArmSnapshot":
+		ok = r.Do(Stim{Op: "snapnow", N: n})
+	case "ISExchange":
+		// the whole transfer: as many request/response pairs as the sender's current file
+		// offset makes necessary, until the sender goes back to AppendEntries
+		ok = false
+		for i := 0; i < 5; i++ {
+			r.Do(Stim{Op: "hb", N: n})
+			if r.match(&Stim{Kind: "is", From: n, To: p}, 0) == nil {
+				break
+			}
+			r.Do(Stim{Op: "xchg", Kind: "is", From: n, To: p})
+			ok = true
+		}
 	case "ClientSubmit":
 		ok = r.Do(Stim{Op: "submit", N: n, Val: unq(st.V), K: 0, TO: 60000})
 	case "Crash":
@@ -108,7 +128,7 @@ func (r *Runner) specStep(k int, st SpecStep) {
 		ids = append(ids, id)
 	}
 	sort.Strings(ids)
-	var diffs []string
+	diffs := []string{}
 	for _, id := range ids {
 		want := st.Post[id]
 		got := c.project(c.node(id))
